@@ -119,9 +119,13 @@ pub trait Prop: Sync {
     }
     fn runs(&self, tier: Tier) -> u64;
     fn gen(&self, rng: &mut Rng, tier: Tier, idx: u64) -> Self::Case;
-    /// Cases enumerated rather than sampled (exhaustive sub-spaces); generated lazily per index.
-    fn enumerated(&self, _tier: Tier, _seed: u64) -> Vec<Self::Case> {
+    /// Cases enumerated rather than sampled (exhaustive sub-spaces): groups of (count, group seed); the k-th
+    /// case of a group is produced on demand by `enum_case`.
+    fn enum_plan(&self, _tier: Tier, _seed: u64) -> Vec<(u64, u64)> {
         Vec::new()
+    }
+    fn enum_case(&self, _group_seed: u64, _k: u64) -> Self::Case {
+        unreachable!()
     }
     fn sim_params(&self, case: &Self::Case) -> SimParams;
     fn exec(&self, case: &Self::Case, x: &mut Exec);
@@ -340,8 +344,13 @@ pub fn run_check<P: Prop>(prop: &P, opt: &Options) -> i32 {
     println!("VERIF_SEED={} property={} tier={} harness=\"{}\"", opt.seed, id, opt.tier.name(), HARNESS_VERSION);
     let root = scratch_root();
     let _ = std::fs::create_dir_all(&root);
-    let enumerated = prop.enumerated(opt.tier, opt.seed);
-    let n_enum = enumerated.len() as u64;
+    let plan = prop.enum_plan(opt.tier, opt.seed);
+    let mut prefix: Vec<u64> = Vec::with_capacity(plan.len() + 1);
+    prefix.push(0);
+    for (n, _) in &plan {
+        prefix.push(prefix.last().unwrap() + n);
+    }
+    let n_enum = if opt.runs.is_some() { 0 } else { *prefix.last().unwrap() };
     let n_sampled = opt.runs.unwrap_or_else(|| prop.runs(opt.tier));
     let total = n_sampled + n_enum;
     let next = AtomicU64::new(0);
@@ -350,7 +359,8 @@ pub fn run_check<P: Prop>(prop: &P, opt: &Options) -> i32 {
     let want_all_hashes = opt.hashes_out.is_some();
     let case_for = |idx: u64| -> P::Case {
         if idx < n_enum {
-            enumerated[idx as usize].clone()
+            let g = prefix.partition_point(|p| *p <= idx) - 1;
+            prop.enum_case(plan[g].1, idx - prefix[g])
         } else {
             let mut rng = Rng::new(run_seed(opt.seed, id, idx - n_enum));
             prop.gen(&mut rng, opt.tier, idx - n_enum)
